@@ -139,6 +139,52 @@ def r4_authoritative(ctx):
         ctx.check(ok, NB, "BaseNode.inject_value", f"`{norm(a)}` (never updated by modifications) is read only when the node has no typed value",
                   detail=None if ok else "unguarded read of the raw representation")
     ctx.floor("raw-representation reads", len(raw_reads), 2, file=NB)
+    # cast_value(): when called without a value on a node that has a typed value, the typed value is the source
+    from ..flowexpr import consistent, paths
+    cv = ctx.fn(NB, "BaseNode.cast_value")
+    arg = cv.args.args[1].arg if len(cv.args.args) > 1 else "value"
+    try:
+        cps = paths(cv, max_paths=20000)
+    except AnalysisError as e:
+        cps = None
+        ctx.unrecognised(NB, "BaseNode.cast_value", "default value source", str(e))
+    if cps is not None:
+        rows, unk = {}, []
+        for typed in (True, False):
+            def atom(e, _t=typed):
+                k = norm(e)
+                t = {f"{arg} is None": True, f"{arg} is not None": False, "self.value is None": not _t, "self.value is not None": _t,
+                     "self.value_raw is None": False, "self.value_raw is not None": True}.get(k)
+                if t is not None:
+                    return t
+                if k.startswith("isinstance(self.value, "):
+                    return True
+                return None
+            src = set()
+            for q in cps:
+                # only the tests up to the first binding of the argument matter
+                first = next((i for i, e in enumerate(q.events) if e.kind == "assign" and e.extra == arg), None)
+                if first is None:
+                    continue
+                from ..flowexpr import truth
+                ok = True
+                for e in q.events[:first]:
+                    if e.kind == "test":
+                        v = truth(e.resolved, atom)
+                        if v is None:
+                            unk.append(norm(e.resolved))
+                            ok = False
+                        elif v != e.extra:
+                            ok = False
+                if ok:
+                    src.add(norm(q.events[first].resolved))
+            rows[typed] = sorted(src)
+        if unk and not (rows.get(True) and rows.get(False)):
+            ctx.unrecognised(NB, "BaseNode.cast_value", "default value source", f"test not decided: {sorted(set(unk))[:2]}")
+        else:
+            ctx.check(bool(rows[True]) and all(r in ("self.value.value", "self.value") for r in rows[True]) and rows[False] == ["self.value_raw"], NB, "BaseNode.cast_value",
+                      "without an explicit value the node's current typed value is cast; the raw text only when there is no typed value yet",
+                      detail={"typed value present": rows[True], "no typed value": rows[False]}, expected={"typed value present": ["self.value.value"], "no typed value": ["self.value_raw"]})
     # writers of the typed value
     for q in ("BaseNode.set_value", "BaseNode.modify_value"):
         f = ctx.fn(NB, q)
